@@ -14,7 +14,8 @@ pub struct Unbounded {
 }
 
 const SRCS: [&str; 3] = ["repeat", "from_iter", "range"];
-const OPS: [&str; 9] = ["take", "first", "element_at", "take_while", "contains", "all", "map_take", "take_until_sync", "zip_finite"];
+const OPS: [&str; 11] =
+  ["take", "first", "element_at", "take_while", "contains", "all", "map_take", "take_until_sync", "zip_finite", "flat_map_leave", "resume_leave"];
 
 impl Harness for Unbounded {
   fn name(&self) -> String {
@@ -40,6 +41,44 @@ impl Harness for Unbounded {
       ),
       _ => (observables::range(0, 1 << 40).map(|v: i64| Sym::konst(v)), Box::new(|i| Sym::konst(i as i64))),
     };
+    if matches!(self.op, "flat_map_leave" | "resume_leave") {
+      // the subscriber leaves from inside the projection / resume function (same thread), which then hands
+      // the unbounded producer to the operator: it is subscribed on behalf of a subscription that has ended
+      // and must stop at its first emission
+      let outer: subjects::Subject<'static, Sym> = subjects::Subject::new();
+      let slot: Arc<std::sync::Mutex<Option<Subscription<'static>>>> = Arc::new(std::sync::Mutex::new(None));
+      let (s2, src2) = (slot.clone(), src.clone());
+      let leave = move || {
+        let sub = s2.lock().unwrap().take();
+        if let Some(sub) = sub {
+          sub.unsubscribe();
+        }
+      };
+      let o: Obs = if self.op == "flat_map_leave" {
+        outer.observable().flat_map(move |_v: Sym| {
+          leave();
+          src2.clone()
+        })
+      } else {
+        outer.observable().on_error_resume_next(move |_e| {
+          leave();
+          src2.clone()
+        })
+      };
+      let rec = Recorder::new();
+      let sub = rec.subscribe(&o);
+      *slot.lock().unwrap() = Some(sub.clone());
+      if self.op == "flat_map_leave" {
+        outer.next(Sym::konst(7));
+      } else {
+        outer.error(rx_err(&Sym::konst(9)));
+      }
+      let out = rec.take();
+      let sig = format!("unbounded={};op={}", self.src, self.op);
+      let exp = RStream { items: vec![], end: REnd::Silent };
+      let _ = &item;
+      return verdict_from(&out, &exp, &sig, self.src);
+    }
     let counting = self.src != "repeat";
     let n = 1 + sym::choose("n", 3);
     let c = Sym::var_in("c", 1, 4, 2);
